@@ -6,7 +6,7 @@
    denC gives sqrt/log their principal complex branches; wdC is well-definedness (no 1/0,
    no log 0, relational operands real).  s, m1, m2, m are real; envS/envE bind the symbols. *)
 From AV Require Import DenC.
-From AVchk Require Import Gen_C11 C11_lemmas.
+From AVchk Require Import Gen_C11 C11_lemmas C11_glue.
 From Coq Require Import Lra.
 Open Scope C_scope.
 
@@ -70,6 +70,14 @@ Theorem C11_equalmass_eq_swave : forall s m : R, (0 < m)%R -> s <> 0%R -> s <> (
   denC (envE s m) gen_eqm_eq = denC (envE s m) gen_swave_eq.
 Proof. exact equalmass_eq_swave_all. Qed.
 
+(* the same identity for the general trees X(s,m1,m2).doit() evaluated at m1 = m2 = m (what a
+   user of the lambdified three-argument functions gets): they denote the same as the (s,m,m) trees *)
+Theorem C11_equalmass_eq_swave_general_trees : forall s m : R,
+  (0 < m)%R -> s <> 0%R -> s <> (4 * m ^ 2)%R ->
+  wdC (envS s m m) gen_eqm /\ wdC (envS s m m) gen_swave /\
+  denC (envS s m m) gen_eqm = denC (envS s m m) gen_swave.
+Proof. exact equalmass_eq_swave_general. Qed.
+
 (* ---- 5. threshold: both variants tend to 0 as s -> 4 m^2 from either side (epsilon-delta on
         the punctured neighbourhood); SWave is defined and 0 AT the threshold, EqualMass is not
         defined there in exact arithmetic (its third branch divides by rho-hat = 0) ---- *)
@@ -114,6 +122,7 @@ Print Assumptions C11_re_above_threshold_PhaseSpaceFactorSWave.
 Print Assumptions C11_re_above_threshold_EqualMassPhaseSpaceFactor.
 Print Assumptions C11_complex_is_i_abs.
 Print Assumptions C11_equalmass_eq_swave.
+Print Assumptions C11_equalmass_eq_swave_general_trees.
 Print Assumptions C11_continuous_at_threshold.
 Print Assumptions C11_swave_value_at_threshold.
 Print Assumptions C11_equalmass_undefined_at_threshold.
